@@ -7,7 +7,7 @@ From M Require Import LexModel LexBounds UnitProgress.
 Import ListNotations.
 Local Open Scope Z_scope.
 
-Definition tchar (t:N) : Prop := t = 10%N \/ t = 59%N.
+Definition tchar (t:N) : Prop := t = 10%N \/ t = 13%N \/ t = 59%N.
 Definition Tail (r:bytes) : Prop := exists t z, r = t :: z /\ tchar t.
 Definition plainc (c:N) : bool := negb ((c =? 10) || (c =? 13) || (c =? 59) || (c =? 34) || (c =? 39) || (c =? 35))%N.
 Definition plain (a:bytes) : Prop := Forall (fun c => plainc c = true) a.
@@ -45,7 +45,7 @@ Proof. intros (pre & ->) H. unfold plain in *. apply Forall_app in H. apply H. Q
 
 (* a tail starts with a byte outside every class the recognisers scan over *)
 Ltac tails HT := let t := fresh "t" in let z := fresh "z" in let Ht := fresh "Ht" in
-  destruct HT as (t & z & -> & [-> | ->]); reflexivity.
+  destruct HT as (t & z & -> & [-> | [-> | ->]]); reflexivity.
 Ltac st HT := match goal with |- starts _ _ = false => tails HT end.
 
 (* ---------- recognisers without end-of-input tests: the same result on a ++ r as on a ---------- *)
@@ -57,10 +57,10 @@ Let Hne : r <> [] := tail_nonempty r HT.
 Lemma ws_cut a : lex_ws (a ++ r) = lex_ws a.
 Proof. unfold lex_ws. rewrite skip_while_app by (clear Hne; tails HT). rewrite used_app. reflexivity. Qed.
 
-Lemma chr_cut t k a : (k <> 10 /\ k <> 59)%N -> lex_chr t k (a ++ r) = lex_chr t k a.
+Lemma chr_cut t k a : (k <> 10 /\ k <> 13 /\ k <> 59)%N -> lex_chr t k (a ++ r) = lex_chr t k a.
 Proof.
-  intros [H1 H2]. unfold lex_chr. rewrite starts_app; [reflexivity|].
-  destruct HT as (t0 & z & -> & [-> | ->]); cbn [starts]; unfold ischr; apply N.eqb_neq; congruence.
+  intros (H1 & H2 & H3). unfold lex_chr. rewrite starts_app; [reflexivity|].
+  destruct HT as (t0 & z & -> & [-> | [-> | ->]]); cbn [starts]; unfold ischr; apply N.eqb_neq; congruence.
 Qed.
 
 Lemma chardata_cut a : lex_chardata (a ++ r) = lex_chardata a.
@@ -139,7 +139,7 @@ Qed.
 Lemma plain_head k a : plain a -> (k = 34 \/ k = 39 \/ k = 35)%N -> starts (ischr k) (a ++ r) = false.
 Proof.
   intros Hp Hk. destruct a as [|c a]; cbn [app starts].
-  - destruct HT as (t & z & -> & [-> | ->]); destruct Hk as [->|[->| ->]]; reflexivity.
+  - destruct HT as (t & z & -> & [-> | [-> | ->]]); destruct Hk as [->|[->| ->]]; reflexivity.
   - inversion Hp as [|? ? Hc _]; subst. unfold plainc in Hc. unfold ischr.
     destruct Hk as [->|[->| ->]]; destruct (c =? 10)%N, (c =? 13)%N, (c =? 59)%N, (c =? 34)%N, (c =? 39)%N, (c =? 35)%N; try discriminate Hc; reflexivity.
 Qed.
@@ -221,7 +221,7 @@ Proof.
   rewrite drop_app by exact Hpos. rewrite (ppd_cut r HT) by (apply plain_drop; exact Hp).
   pose proof (ppd_disp (drop pos a)) as Hr. rewrite drop_length in Hr by exact Hpos.
   set (rr := parse_program_data (drop pos a)) in *.
-  rewrite drop_app by lia. unfold lex_comma. rewrite (chr_cut r HT) by (split; discriminate). fold lex_comma.
+  rewrite drop_app by lia. unfold lex_comma. rewrite (chr_cut r HT) by (repeat split; discriminate). fold lex_comma.
   destruct (ty (tok rr)); try reflexivity;
   (destruct (Z.eqb_spec (ret (lex_comma (drop (pos + disp rr) a))) 0) as [E|E]; [reflexivity|];
    apply comma_nonempty in E;
@@ -396,8 +396,9 @@ Proof.
 Qed.
 
 (* ---------- the unit scanner ---------- *)
-(* what scpiParser_detectProgramMessageUnit decides for a ++ t :: z, written without z *)
-Definition detect_t (a:bytes) (t:N) : unitinfo :=
+(* what scpiParser_detectProgramMessageUnit decides for a ++ t :: z, written without z (lf: a carriage return t is followed by a
+   line feed, which the terminator then includes) *)
+Definition detect_t (a:bytes) (t:N) (lf:bool) : unitinfo :=
   let w0 := disp (lex_ws a) in
   let h := header_t (drop w0 a) in
   let hdr := {| ty := ty (tok h); ptr := w0; len := len (tok h) |} in
@@ -410,7 +411,8 @@ Definition detect_t (a:bytes) (t:N) : unitinfo :=
        ({| ty := ad_ty ad; ptr := p2; len := ad_len ad |}, ad_n ad, (p2 + ad_disp ad)%Z)
      else ({| ty := T_UNKNOWN; ptr := p2; len := 0 |}, 0%Z, p2) in
   if iseos (drop p3 a) then
-    {| u_hdr := hdr; u_data := data; u_n := n; u_term := if (t =? 10)%N then TERM_NL else TERM_SEMICOLON; u_consumed := (p3 + 1)%Z |}
+    {| u_hdr := hdr; u_data := data; u_n := n; u_term := if (t =? 59)%N then TERM_SEMICOLON else TERM_NL;
+       u_consumed := (p3 + (if (t =? 13)%N && lf then 2 else 1))%Z |}
   else
     {| u_hdr := {| ty := T_INVALID; ptr := w0; len := 1 |}; u_data := {| ty := T_UNKNOWN; ptr := 0; len := 0 |};
        u_n := n; u_term := TERM_NONE; u_consumed := (p3 + 1)%Z |}.
@@ -421,7 +423,20 @@ Lemma used_same (l:bytes) : used l l = 0. Proof. unfold used. lia. Qed.
 Lemma plainc_not c : plainc c = true -> (c =? 10)%N = false /\ (c =? 13)%N = false /\ (c =? 59)%N = false.
 Proof. unfold plainc. destruct (c =? 10)%N, (c =? 13)%N, (c =? 59)%N; cbn; intro H; try discriminate H; auto. Qed.
 
-Theorem detect_cut a t z : plain a -> tchar t -> detect_unit (a ++ t :: z) = detect_t a t.
+Lemma used_cons2 c c' (l:bytes) : used (c :: c' :: l) l = 2. Proof. unfold used. cbn [length]. lia. Qed.
+
+Lemma newline_lf z : lex_newline (10%N :: z) = mk T_NL 0 1 1 1.
+Proof. unfold lex_newline. cbn [skip_opt]. change (ischr 13 10) with false. cbn [skip_opt]. change (ischr 10 10) with true. cbn iota. rewrite used_cons. reflexivity. Qed.
+Lemma newline_cr z : lex_newline (13%N :: z) = if starts (ischr 10%N) z then mk T_NL 0 2 2 2 else mk T_NL 0 1 1 1.
+Proof.
+  unfold lex_newline. cbn [skip_opt]. change (ischr 13 13) with true. cbn iota.
+  destruct z as [|c z']; cbn [skip_opt starts]; [rewrite used_cons; reflexivity|].
+  destruct (ischr 10%N c); [rewrite used_cons2|rewrite used_cons]; reflexivity.
+Qed.
+Lemma newline_sc z : lex_newline (59%N :: z) = mk T_UNKNOWN 0 0 0 0.
+Proof. unfold lex_newline. cbn [skip_opt]. change (ischr 13 59) with false. cbn [skip_opt]. change (ischr 10 59) with false. cbn iota. rewrite used_same. reflexivity. Qed.
+
+Theorem detect_cut a t z : plain a -> tchar t -> detect_unit (a ++ t :: z) = detect_t a t (starts (ischr 10%N) z).
 Proof.
   intros Hp Ht. pose proof (tail_cons t z Ht) as HT. set (r := t :: z) in *.
   unfold detect_unit, detect_t. rewrite (ws_cut r HT).
@@ -445,11 +460,13 @@ Proof.
   destruct (drop p3 a) as [|c a'] eqn:Ed.
   - (* the scan stopped at the terminator *)
     cbn [app iseos]. subst r.
-    destruct Ht as [-> | ->].
-    + unfold lex_newline, lex_semicolon, lex_chr. cbn [skip_opt starts]. unfold ischr. cbn [N.eqb Pos.eqb]. rewrite used_cons.
-      cbn [Z.ltb Z.compare mk ret Z.eqb negb]. rewrite andb_false_r. reflexivity.
-    + unfold lex_newline, lex_semicolon, lex_chr. cbn [skip_opt starts]. unfold ischr. cbn [N.eqb Pos.eqb]. rewrite used_same.
-      cbn [Z.ltb Z.compare mk ret Z.eqb negb]. rewrite andb_false_r. reflexivity.
+    destruct Ht as [-> | [-> | ->]].
+    + rewrite newline_lf. unfold lex_semicolon, lex_chr. cbn [starts]. change (ischr 59 10) with false. cbn iota.
+      cbn [Z.ltb Z.compare mk ret Z.eqb negb andb N.eqb Pos.eqb]. rewrite andb_false_r. reflexivity.
+    + rewrite newline_cr. unfold lex_semicolon, lex_chr. cbn [starts]. change (ischr 59 13) with false. cbn iota.
+      destruct (starts (ischr 10%N) z); cbn [Z.ltb Z.compare mk ret Z.eqb negb andb N.eqb Pos.eqb]; rewrite andb_false_r; reflexivity.
+    + rewrite newline_sc. unfold lex_semicolon, lex_chr. cbn [starts]. change (ischr 59 59) with true. cbn iota.
+      cbn [Z.ltb Z.compare mk ret Z.eqb negb andb N.eqb Pos.eqb]. rewrite andb_false_r. reflexivity.
   - inversion Hpl as [|? ? Hc _]; subst. apply plainc_not in Hc. destruct Hc as (H10 & H13 & H59).
     cbn [app iseos]. unfold lex_newline, lex_semicolon, lex_chr. cbn [skip_opt starts]. unfold ischr. rewrite H13. cbn [skip_opt]. rewrite H10, H59.
     rewrite used_same. cbn [Z.ltb Z.compare mk ret Z.eqb negb].
@@ -459,9 +476,10 @@ Print Assumptions detect_cut.
 
 (* the two shapes of that decision: the scan reached the terminator, or it stopped at a byte that cannot continue the unit
    (reported as an invalid unit that ends behind that byte) *)
-Lemma detect_t_shape a t : plain a ->
-  (u_term (detect_t a t) = (if (t =? 10)%N then TERM_NL else TERM_SEMICOLON) /\ u_consumed (detect_t a t) = Z.of_nat (length a) + 1) \/
-  (u_term (detect_t a t) = TERM_NONE /\ ty (u_hdr (detect_t a t)) = T_INVALID /\ 1 <= u_consumed (detect_t a t) <= Z.of_nat (length a)).
+Lemma detect_t_shape a t lf : plain a ->
+  (u_term (detect_t a t lf) = (if (t =? 59)%N then TERM_SEMICOLON else TERM_NL) /\
+   u_consumed (detect_t a t lf) = Z.of_nat (length a) + (if (t =? 13)%N && lf then 2 else 1)) \/
+  (u_term (detect_t a t lf) = TERM_NONE /\ ty (u_hdr (detect_t a t lf)) = T_INVALID /\ 1 <= u_consumed (detect_t a t lf) <= Z.of_nat (length a)).
 Proof.
   intros Hp. unfold detect_t.
   pose proof (ws_inside a) as (Hw0 & _). set (w0 := disp (lex_ws a)) in *.
@@ -480,4 +498,33 @@ Proof.
   destruct (drop p3 a) as [|c a'].
   - left. cbn [iseos u_term u_consumed length] in *. split; [reflexivity|lia].
   - right. cbn [iseos u_term u_consumed u_hdr ty length] in *. repeat split; lia.
+Qed.
+
+(* how the decision depends on the flag: not at all for ';' and line feed; for a carriage return only in the byte count *)
+Lemma detect_t_flag a t lf lf' : t <> 13%N -> detect_t a t lf = detect_t a t lf'.
+Proof.
+  intro Ht. unfold detect_t. apply N.eqb_neq in Ht. rewrite Ht. cbn [andb]. reflexivity.
+Qed.
+Lemma detect_t_cr a : plain a ->
+  u_hdr (detect_t a 13%N true) = u_hdr (detect_t a 13%N false) /\ u_data (detect_t a 13%N true) = u_data (detect_t a 13%N false) /\
+  ((u_consumed (detect_t a 13%N false) = Z.of_nat (length a) + 1 /\ u_consumed (detect_t a 13%N true) = Z.of_nat (length a) + 2) \/
+   (detect_t a 13%N true = detect_t a 13%N false /\ 1 <= u_consumed (detect_t a 13%N false) <= Z.of_nat (length a))).
+Proof.
+  intros Hp. unfold detect_t.
+  pose proof (ws_inside a) as (Hw0 & _). set (w0 := disp (lex_ws a)) in *.
+  pose proof (header_t_inside (drop w0 a)) as Hh. rewrite drop_length in Hh by exact Hw0. set (h := header_t (drop w0 a)) in *.
+  set (p1 := w0 + disp h).
+  pose proof (ws_inside (drop p1 a)) as (Hw1 & _). rewrite drop_length in Hw1 by (subst p1; lia). set (w1 := disp (lex_ws (drop p1 a))) in *.
+  set (p2 := p1 + w1).
+  assert (Hp2 : 0 <= p2 <= Z.of_nat (length a)) by (subst p2 p1; lia).
+  set (dnp := if 0 <? w1 then _ else _).
+  assert (Hp3 : p2 <= snd dnp <= Z.of_nat (length a)).
+  { subst dnp. destruct (0 <? w1); cbn [snd]; [|lia].
+    unfold parse_all_data. pose proof (all_data_disp (S (length (drop p2 a))) (drop p2 a) 0 0 0) as Ha.
+    rewrite drop_length in Ha by exact Hp2. specialize (Ha ltac:(lia)). lia. }
+  destruct dnp as [[data n] p3]; cbn [snd] in Hp3.
+  assert (Hl : Z.of_nat (length (drop p3 a)) = Z.of_nat (length a) - p3) by (apply drop_length; lia).
+  destruct (drop p3 a) as [|c a'].
+  - cbn [iseos u_hdr u_data u_consumed length N.eqb Pos.eqb andb] in *. split; [reflexivity|]. split; [reflexivity|]. left. lia.
+  - cbn [iseos u_hdr u_data u_consumed length] in *. split; [reflexivity|]. split; [reflexivity|]. right. split; [reflexivity|lia].
 Qed.
